@@ -45,6 +45,8 @@ type call struct {
 }
 
 type world struct {
+	ls2     *server.LockServer // the server started by restart()
+	closer2 func()
 	t       *testing.T
 	cfg     impl.Cfg
 	dir     string
@@ -167,14 +169,11 @@ type ackSnap struct {
 func newWorld(t *testing.T, cfg impl.Cfg, sessions ...string) *world {
 	w := &world{t: t, cfg: cfg, start: time.Now(), sess: map[string]context.Context{}, cancel: map[string]context.CancelFunc{},
 		keys: map[string]string{}, images: map[string]string{}}
-	sc := &server.LockServerConfig{Shards: cfg.Shards, LockGcInterval: cfg.GcInt, LockGcMinIdle: cfg.GcIdle,
-		DefaultLockTimeout: cfg.Dlt, NoClearOnDisconnect: cfg.NoClear}
-	sc.IPCSocketFile = ""
 	if cfg.File {
 		w.dir = common.TempDir()
 		w.statePath = filepath.Join(w.dir, "state")
-		sc.StateFile = w.statePath
 	}
+	sc := w.serverConfig()
 	ls, closer, err := server.New(sc)
 	if err != nil {
 		panic(err)
@@ -186,6 +185,28 @@ func newWorld(t *testing.T, cfg impl.Cfg, sessions ...string) *world {
 		w.sess[s], w.cancel[s] = sctx, cancel
 	}
 	return w
+}
+
+func (w *world) serverConfig() *server.LockServerConfig {
+	cfg := w.cfg
+	sc := &server.LockServerConfig{Shards: cfg.Shards, LockGcInterval: cfg.GcInt, LockGcMinIdle: cfg.GcIdle,
+		DefaultLockTimeout: cfg.Dlt, NoClearOnDisconnect: cfg.NoClear}
+	sc.IPCSocketFile = ""
+	if cfg.File {
+		sc.StateFile = w.statePath
+	}
+	return sc
+}
+
+// restart starts a second server on the state file the first one has written, as the next start after a
+// kill does (the first server object is simply abandoned). What it restored is kept for the monitors.
+func (w *world) restart(th string) {
+	c := w.begin(th, "restart", "", "")
+	ls2, closer2, err := server.New(w.serverConfig())
+	w.mu.Lock()
+	w.ls2, w.closer2 = ls2, closer2
+	w.mu.Unlock()
+	w.end(c, err == nil, "", err)
 }
 
 func (w *world) now() int64 { return int64(time.Since(w.start)) }
@@ -393,6 +414,9 @@ func (w *world) close() {
 	synctest.Wait()
 	if w.closer != nil {
 		w.closer()
+	}
+	if w.closer2 != nil {
+		w.closer2()
 	}
 	synctest.Wait()
 	if w.dir != "" {
@@ -705,6 +729,47 @@ func templates() []template {
 				},
 			}
 		}},
+		{name: "lock(wt5);unlock||lock;unlock||unlock||+5s", props: []string{"C03", "C01"}, bound: 2, prog: func(t *testing.T) conc.Program {
+			// two waiters; the head waiter's wait timeout may run out just as the holder's Unlock hands it the
+			// unit: "a release is never lost while someone waits", "a waiter that gives up does not delay the
+			// waiters behind it" - whoever is granted unlocks again, so in the end nobody may be left blocked
+			lockThenUnlock := func(th, sid string, wt *int32, label string) func(any) {
+				return func(c any) {
+					w := c.(*world)
+					w.lock(th, sid, "x", nil, nil, wt, label)
+					w.mu.Lock()
+					_, got := w.keys[label]
+					w.mu.Unlock()
+					if got {
+						w.unlock(th, sid, "x", label)
+					}
+				}
+			}
+			return conc.Program{
+				Setup: func() any {
+					w := newWorld(t, cfgGc0(), "s1", "s2", "s3")
+					w.mustTry("s1", "x", nil, nil, "h")
+					return w
+				},
+				Threads: []conc.Thread{
+					{Name: "W", Run: lockThenUnlock("W", "s2", p32(5), "w")},
+					{Name: "V", Run: lockThenUnlock("V", "s3", nil, "v")},
+					{Name: "U", Run: func(c any) { c.(*world).unlock("U", "s1", "x", "h") }},
+				},
+				Ticks: []time.Duration{5 * time.Second},
+				Finish: func(c any) conc.Outcome {
+					w := c.(*world)
+					return finish(w, func() {
+						for _, cl := range w.calls {
+							if cl.Kind == "lock" && cl.Thread == "V" && cl.Done && !cl.Ok {
+								w.v("conc:waiter:lost-release", "V's blocking Lock without a wait timeout returned without the lock (%s) although the holder and every other grantee released \"x\"", w.summary())
+							}
+						}
+						capacityMonitor(w, "x", 1, 1)
+					})
+				},
+			}
+		}},
 		reqCancelled("lock(request-cancelled)||unlock", false),
 		reqCancelled("lock(request-cancelled)||unlock [no-clear]", true),
 		{name: "lock||unlock||trylock(size2);trylock(size2)", props: []string{"C01", "C12"}, bound: 2, prog: func(t *testing.T) conc.Program {
@@ -899,6 +964,32 @@ func templates() []template {
 				Threads: []conc.Thread{
 					{Name: "U", Run: func(c any) { c.(*world).unlock("U", "s1", "x", "h") }},
 					{Name: "R", Run: func(c any) { c.(*world).renew("R", "x", "h", 100) }},
+				},
+				Ticks: []time.Duration{5 * time.Second},
+				Finish: func(c any) conc.Outcome {
+					w := c.(*world)
+					return finish(w, func() { truthMonitor(w, "x", "h", 100) })
+				},
+			}
+		}},
+		{name: "disconnect;renew||expiry [no-clear]", props: []string{"C05", "C06"}, bound: 2, prog: func(t *testing.T) conc.Program {
+			// no-clear-on-disconnect: the session ends, its leased hold stays; a reconnecting client renews it by
+			// key. A Renew answered true means the hold lasts for the renewed lease - the lease it had before the
+			// session ended must not run out underneath it
+			return conc.Program{
+				Setup: func() any {
+					cfg := cfgFile()
+					cfg.NoClear = true
+					w := newWorld(t, cfg, "s1", "s2")
+					w.mustTry("s1", "x", nil, p32(5), "h")
+					return w
+				},
+				Threads: []conc.Thread{
+					{Name: "A", Run: func(c any) {
+						w := c.(*world)
+						w.disconnect("A", "s1")
+						w.renew("A", "x", "h", 100)
+					}},
 				},
 				Ticks: []time.Duration{5 * time.Second},
 				Finish: func(c any) conc.Outcome {
@@ -1192,6 +1283,46 @@ func templates() []template {
 					return finish(w, func() {
 						crashMonitor(w, map[string]int{"x": 1, "y": 1}, false)
 						sessionEndMonitor(w, "s1", []string{"x", "y"}, map[string]string{"x": "l"}, "waiter-behind-ended-session")
+					})
+				},
+			}
+		}},
+		{name: "restart (crash images)", props: []string{"C09"}, bound: 1, prog: func(t *testing.T) conc.Program {
+			// the next start after a kill is itself a process that can be killed at any instant: while it
+			// restores the holds, the file must keep describing every acknowledged hold
+			return conc.Program{
+				Setup: func() any {
+					w := newWorld(t, cfgFile(), "s1", "s2")
+					w.mustTry("s1", "x", nil, nil, "h")
+					w.mustTry("s1", "y", p32(2), nil, "hy")
+					w.mustTry("s2", "y", p32(2), p32(60), "hy2")
+					w.mustTry("s2", "z", nil, nil, "hz")
+					for _, h := range [][2]string{{"x", "h"}, {"y", "hy"}, {"y", "hy2"}, {"z", "hz"}} {
+						w.calls = append(w.calls, &call{Thread: "setup", Kind: "trylock", Name: h[0], Key: w.keys[h[1]], Ok: true, Done: true, Err: "-"})
+					}
+					w.enableSnapshots()
+					return w
+				},
+				Threads: []conc.Thread{
+					{Name: "R", Run: func(c any) { c.(*world).restart("R") }},
+				},
+				Finish: func(c any) conc.Outcome {
+					w := c.(*world)
+					return finish(w, func() {
+						crashMonitor(w, map[string]int{"x": 1, "y": 2, "z": 1}, false)
+						if w.ls2 == nil {
+							w.v("conc:crash:restart-failed", "the next start on the state file of a running server failed (%s)", w.summary())
+							return
+						}
+						for _, h := range [][2]string{{"x", "h"}, {"y", "hy"}, {"y", "hy2"}, {"z", "hz"}} {
+							found := false
+							for _, lk := range w.ls2.Locks() {
+								found = found || lk.Name() == h[0] && lk.Key() == w.keys[h[1]]
+							}
+							if !found {
+								w.v("conc:crash:restart-lost-hold", "the next start did not restore the acknowledged live hold %s/%s", h[0], h[1])
+							}
+						}
 					})
 				},
 			}
@@ -1680,6 +1811,12 @@ func TestConc(t *testing.T) {
 	}
 	if prop == "C02" && os.Getenv("VERIF_TEMPLATE") == "" {
 		handBackProbe(res, prop)
+	}
+	if prop == "C02" && os.Getenv("VERIF_TEMPLATE") == "" {
+		nameIdentityProbe(res, prop)
+	}
+	if prop == "C01" && os.Getenv("VERIF_TEMPLATE") == "" {
+		parallelCapacityProbe(res, prop)
 	}
 	rng := common.NewRng(common.Seed())
 	only := os.Getenv("VERIF_TEMPLATE")
